@@ -6,29 +6,36 @@ From AL Require Import C02.Machine.
 Import ListNotations.
 Local Open Scope nat_scope.
 
-Definition bump (i j r : nat) : nat := if Nat.eqb j i then S r else r.
+(* [c] says which sources are being counted *)
+Definition bump (c : nat -> bool) (j r : nat) : nat := if c j then S r else r.
+Definition only (i : nat) : nat -> bool := fun j => Nat.eqb j i.
+Definition every : nat -> bool := fun _ => true.
 
-(* [tr_ok i need r y t]: along t (r reads on source i and y yields so far), every read on
-   source i is one that the next output is allowed to cost, and at every yield / stop the
+(* [tr_ok i need r y t]: along t (r items read from source i and y yields so far; finding a source
+   exhausted is not reading an item), every read on source i is one that the next output is allowed to cost, and at every yield / stop the
    reads so far are within the need of the output being asked for.  Nothing may be read
    before the first demand: a trace starts with r = 0, y = 0. *)
-Fixpoint tr_ok {O : Type} (i : nat) (need : nat -> nat) (r y : nat) (t : list (ev O)) : bool :=
+Fixpoint tr_ok {O : Type} (i : nat -> bool) (need : nat -> nat) (r y : nat) (t : list (ev O)) : bool :=
   match t with
   | [] => true
   | EvRead j :: t' => (bump i j r <=? need (S y)) && tr_ok i need (bump i j r) y t'
   | EvYield _ :: t' => (r <=? need (S y)) && tr_ok i need r (S y) t'
   | EvStop :: t' => (r <=? need (S y)) && tr_ok i need r y t'
+  | EvEnd _ :: t' => tr_ok i need r y t'
   | EvRaise _ :: t' => tr_ok i need r y t'
   | EvOut :: t' => tr_ok i need r y t'
   end.
 
 (* exactness on a trace: at the moment of the j-th yield exactly [need j] items were read *)
-Fixpoint tr_exact {O : Type} (i : nat) (need : nat -> nat) (r y : nat) (t : list (ev O)) : bool :=
+Fixpoint tr_exact {O : Type} (i : nat -> bool) (need : nat -> nat) (r y : nat) (t : list (ev O)) : bool :=
   match t with
   | [] => true
   | EvRead j :: t' => tr_exact i need (bump i j r) y t'
   | EvYield _ :: t' => (r =? need (S y)) && tr_exact i need r (S y) t'
-  | _ :: t' => tr_exact i need r y t'
+  | EvEnd _ :: t' => tr_exact i need r y t'
+  | EvStop :: t' => tr_exact i need r y t'
+  | EvRaise _ :: t' => tr_exact i need r y t'
+  | EvOut :: t' => tr_exact i need r y t'
   end.
 
 (* ---------------------------------------------------------------- need functions *)
@@ -49,6 +56,13 @@ Definition need_tee (n : nat) (sched : list nat) (k : nat) : nat :=
 (* zip-like stages: one item per output on each of their sources (counted with multiplicity) *)
 Definition need_zip (order : list nat) (i k : nat) : nat := k * count_occ Nat.eq_dec order i.
 Definition need_chain (order : list nat) (i k : nat) : nat := if in_dec Nat.eq_dec i order then k else 0.
+(* the same two needs for an arbitrary set c of counted sources *)
+Definition cnt (c : nat -> bool) (l : list nat) : nat := List.length (filter c l).
+Definition need_zipc (c : nat -> bool) (order : list nat) (k : nat) : nat := k * cnt c order.
+Definition need_chainc (c : nat -> bool) (order : list nat) (k : nat) : nat :=
+  if existsb c order then k else 0.
+(* a stage that reads source 0 only *)
+Definition one_src (c : nat -> bool) (n : nat -> nat) : nat -> nat := if c 0 then n else fun _ => 0.
 (* filter on the counting source 0,1,2,...: x mod m = r passes; the j-th passing item is r + (j-1)*m *)
 Definition need_filter_mod (m r j : nat) : nat := match j with 0 => 0 | S j' => r + j' * m + 1 end.
 (* resample: n0 items of look-ahead, then one more item each time the read position passes the
